@@ -111,6 +111,11 @@ fn sqr(x: f64) -> f64 {
     x * x
 }
 
+/// Largest magnitude, in seconds, of an offset or delay estimate the filter
+/// keeps. Estimates are handed out as [`Duration`]s, which cannot represent
+/// more than about 3.9e19 seconds (nor NaN or infinities).
+const MAX_ESTIMATE: f64 = 1e18;
+
 #[derive(Debug, Default, Copy, Clone)]
 struct MeasurementErrorEstimator {
     data: [f64; 32],
@@ -320,8 +325,17 @@ impl InnerFilter {
 
         let difference = measurement_vec - prediction;
         let difference_covariance = uncertainty + measurement_noise;
+        let difference_precision = difference_covariance.inverse();
+        if !(difference_precision.entry(0, 0) > 0.0 && difference_precision.is_finite()) {
+            // Both the prediction and the measurement claim to be exact (e.g. a
+            // zero noise estimate from identical samples, absorbed twice without
+            // time passing in between): there is nothing to weigh, and dividing
+            // by the zero covariance would turn the entire state into NaN.
+            log::debug!("Singular innovation covariance, ignoring measurement");
+            return;
+        }
         let update_strength =
-            self.uncertainty * measurement_transform.transpose() * difference_covariance.inverse();
+            self.uncertainty * measurement_transform.transpose() * difference_precision;
         self.state = self.state + update_strength * difference;
         self.uncertainty = ((Matrix::unit() - update_strength * measurement_transform)
             * self.uncertainty)
@@ -342,6 +356,15 @@ impl InnerFilter {
     fn absorb_offset_steer(&mut self, steer: f64) {
         self.state = self.state + Vector::new_vector([steer, 0., 0.]);
         self.filter_time += Duration::from_seconds(steer);
+    }
+
+    /// Whether the estimate is still usable: all entries of the state and of
+    /// its covariance are finite, and offset and delay fit a [`Duration`].
+    fn is_valid(&self) -> bool {
+        self.state.is_finite()
+            && self.uncertainty.is_finite()
+            && self.state.ventry(0).abs() <= MAX_ESTIMATE
+            && self.state.ventry(2).abs() <= MAX_ESTIMATE
     }
 
     fn predict<const N: usize>(
@@ -373,11 +396,23 @@ impl BaseFilter {
         Self(None)
     }
 
+    /// Drop an estimate that broke down numerically (NaN, infinite or absurdly
+    /// large entries). The filter then starts over with the next measurement
+    /// instead of handing out values that cannot be converted to a
+    /// [`Duration`]. Called at the end of everything that changes the estimate.
+    fn drop_if_invalid(&mut self) {
+        if matches!(&self.0, Some(inner) if !inner.is_valid()) {
+            log::warn!("Filter state is no longer valid, starting over");
+            self.0 = None;
+        }
+    }
+
     fn progress_filtertime(&mut self, time: Time, wander: f64, config: &KalmanConfiguration) {
         match &mut self.0 {
             Some(inner) => inner.progress_filtertime(time, wander, config),
             None => self.0 = Some(InnerFilter::new(0.0, time, config)),
         }
+        self.drop_if_invalid();
     }
 
     fn absorb_sync_offset(
@@ -394,6 +429,7 @@ impl BaseFilter {
                 inner.absorb_sync_offset(sync_offset, variance)
             }
         }
+        self.drop_if_invalid();
     }
 
     fn absorb_delay_offset(
@@ -410,12 +446,14 @@ impl BaseFilter {
                 inner.absorb_delay_offset(delay_offset, variance)
             }
         }
+        self.drop_if_invalid();
     }
 
     fn absorb_peer_delay(&mut self, peer_delay: f64, variance: f64) {
         if let Some(inner) = &mut self.0 {
             inner.absorb_peer_delay(peer_delay, variance)
         }
+        self.drop_if_invalid();
     }
 
     fn absorb_frequency_steer(
@@ -429,12 +467,14 @@ impl BaseFilter {
             Some(inner) => inner.absorb_frequency_steer(steer, time, wander, config),
             None => self.0 = Some(InnerFilter::new(0.0, time, config)),
         }
+        self.drop_if_invalid();
     }
 
     fn absorb_offset_steer(&mut self, steer: f64) {
         if let Some(inner) = &mut self.0 {
             inner.absorb_offset_steer(steer)
         }
+        self.drop_if_invalid();
     }
 
     fn offset(&self) -> f64 {
@@ -781,7 +821,11 @@ impl KalmanFilter {
             log::info!("Updated wander estimate: {:e}", self.wander);
         }
         if self.wander_score > (self.config.precision_hysteresis as i8) {
-            self.wander *= 4.0;
+            // An oscillator that wanders across the whole correctable frequency
+            // range within a second cannot be disciplined anyway; without a bound
+            // repeated increases end at infinity (and infinity times a zero time
+            // step is NaN).
+            self.wander = (self.wander * 4.0).min(sqr(self.config.max_freq_offset * 1e-6));
             self.wander_score = 0;
             log::info!("Updated wander estimate: {:e}", self.wander);
         }
